@@ -15,6 +15,7 @@ import (
 	"github.com/csgura/fp/iterator"
 	"github.com/csgura/fp/lazy"
 	"github.com/csgura/fp/list"
+	"github.com/csgura/fp/ord"
 	"github.com/csgura/fp/seq"
 	"github.com/csgura/fp/xtr"
 	. "verifharness/common"
@@ -693,6 +694,30 @@ func directFixed(r *Rng, rounds int) int {
 			ys = ys[:r.Intn(2)]
 		}
 		in := fmt.Sprintf("xs=%s ys=%s", Show(xs), Show(ys))
+		// a List is a value: a pipeline that uses the SAME list twice - once through a function returning an eager result
+		// (Sort, ToSeq, Reverse…) and once more afterwards - sees the same elements in the same order both times
+		// (seed C12-10: Seq.ToSeq handing out the list's own slice, which list.Sort then sorts in place)
+		for _, mk := range []struct {
+			name string
+			l    func(v []int) fp.List[int]
+		}{
+			{"list.Of", func(v []int) fp.List[int] { return list.Of(v...) }},
+			{"list.FromSeq", func(v []int) fp.List[int] { return list.FromSeq(fp.Seq[int](v)) }},
+			{"list.Collect", func(v []int) fp.List[int] { return list.Collect(iterator.Of(v...)) }},
+		} {
+			own := append([]int{}, xs...)
+			l := mk.l(own)
+			before := Show(l.ToSeq())
+			sorted := run(func() string { return Show(list.Sort(l, ord.Given[int]())) })
+			wantSorted := append([]int{}, xs...)
+			sort.Ints(wantSorted)
+			eq("list.Sort/value", mk.name+" "+in, sorted, Show(wantSorted))
+			eq("list.reused-after-Sort/ToSeq", mk.name+" "+in, run(func() string { return Show(l.ToSeq()) }), before)
+			eq("list.reused-after-Sort/Zip", mk.name+" "+in, run(func() string {
+				return Show(list.Zip(l, list.Map(l, func(v int) int { return v })).ToSeq())
+			}), Show(seq.Zip(fp.Seq[int](xs), fp.Seq[int](xs))))
+			eq("list.reused-after-Sort/source-slice", mk.name+" "+in, Show(own), Show(xs))
+		}
 		it := func() fp.Iterator[int] { return iterator.Of(xs...) }
 		f := func(v int) int { return 3*v + 1 }
 		g := func(a, b int) int { return 10*a + b }
